@@ -187,6 +187,20 @@ CLAIMS = {
          "position >= 1.0 on sse/mmx) are listed in known_findings.jsonl.",
     technique="TLA+ footprint specification enumerated by TLC into guarded-memory configurations run on the real "
               "backends; TLC trace validation of the recorded accesses"),
+ "C04": dict(
+    text="The plans of C02/C01 are run through the C generator: harness modes cgen:<v> write the text "
+         "orc_program_compile_full(target c) returns for every program (v = complete executor function, bare backup "
+         "body, bare NOEXEC body with the prototype's arguments as typed locals), gcc compiles it, and mode c:<v> "
+         "calls the compiled functions on the same inputs; TLC validates every element of every event against the "
+         "reference semantics (OrcOps/OrcProg via Trace_Ops/Trace_Prog).  A rejected event is reported when "
+         "emulation of the same program on the same inputs gives other bytes.  tools/generate-emulation is built "
+         "against the current library and its output must equal the checked-in emulator byte for byte, which extends "
+         "C02's verdict on the emulator to the OPCODE form of the generator.",
+    design_ref="DESIGN.md section 6 C04",
+    note="Float opcodes and float/double parameters in generated C are checked by C18; index-map loads in generated C "
+         "are not covered; the C compiler is the installed gcc (-O2; -O0 too in the thorough tier).",
+    technique="TLA+ executable reference semantics (OrcOps/OrcProg) evaluated by TLC on traces of gcc-compiled "
+              "generated C; byte comparison of the regenerated emulator"),
  "C01": dict(
     text="Native code is judged against the reference semantics directly (so native = emulation follows and a shared "
          "error would still be caught).  (1) One-opcode programs for every integer opcode compiled for avx, sse and "
